@@ -510,12 +510,12 @@ func (d *textDoc) render() []byte {
 
 // edit is one word-level modification of a text.
 type edit struct {
-	Kind string `json:"k"` // del | delrun (Arg%10+2 consecutive words) | suboov | subvoc | insoov | delline | dupline
+	Kind string `json:"k"` // del | delrun (Arg%10+2 consecutive words) | dellong (Arg%30+17 words) | suboov | subvoc | insoov | insrun (Arg%25+17 OOV words) | dupword (the word is written twice) | delline | dupline
 	Pos  int    `json:"p"` // word index (or line index for line edits), taken modulo the current size
 	Arg  int    `json:"a"`
 }
 
-var editKinds = []string{"del", "del", "suboov", "suboov", "suboov", "subvoc", "insoov", "insoov", "delline", "dupline", "delrun"}
+var editKinds = []string{"del", "del", "suboov", "suboov", "suboov", "subvoc", "insoov", "insoov", "delline", "dupline", "delrun", "dupword", "dupword", "insrun", "dellong"}
 
 func applyEdits(c *Classifier, b []byte, edits []edit, truncHead, truncTail int) []byte {
 	d := parseText(b)
@@ -525,10 +525,22 @@ func applyEdits(c *Classifier, b []byte, edits []edit, truncHead, truncTail int)
 			break
 		}
 		switch e.Kind {
-		case "del", "suboov", "subvoc", "insoov":
+		case "del", "suboov", "subvoc", "insoov", "dupword", "insrun":
 			li, col := d.locate(((e.Pos % n) + n) % n)
 			line := d.Lines[li]
 			switch e.Kind {
+			case "dupword":
+				nl := append([]string{}, line[:col+1]...)
+				nl = append(nl, line[col])
+				nl = append(nl, line[col+1:]...)
+				d.Lines[li] = nl
+			case "insrun":
+				nl := append([]string{}, line[:col]...)
+				for k := 0; k < e.Arg%25+17; k++ {
+					nl = append(nl, oovWord(c, 5000+(e.Arg+k*7)%3000))
+				}
+				nl = append(nl, line[col:]...)
+				d.Lines[li] = nl
 			case "del":
 				d.Lines[li] = append(append([]string{}, line[:col]...), line[col+1:]...)
 			case "suboov":
@@ -546,8 +558,12 @@ func applyEdits(c *Classifier, b []byte, edits []edit, truncHead, truncTail int)
 				nl = append(nl, line[col:]...)
 				d.Lines[li] = nl
 			}
-		case "delrun":
-			for k := 0; k < e.Arg%10+2; k++ {
+		case "delrun", "dellong":
+			cnt := e.Arg%10 + 2
+			if e.Kind == "dellong" {
+				cnt = e.Arg%30 + 17
+			}
+			for k := 0; k < cnt; k++ {
 				n := d.nwords()
 				if n <= 1 {
 					break
